@@ -31,6 +31,7 @@ pub fn world_wit(items: &[String]) -> String {
             "ii" => "  import i;\n",
             "ei" => "  export i;\n",
             "ek" => "  export k: async func();\n",
+            "ir" => "  resource c { f: func(); }\n",
             x => panic!("unknown item {x}"),
         });
     }
@@ -147,8 +148,8 @@ pub fn replay(vecs: &str, out: &str) -> Result<()> {
 pub fn record(seed: u64, n: usize, out: &str) -> Result<()> {
     let mut rng = Rng::new(seed);
     let mut w = NdjsonWriter::create(out)?;
-    let names = ["f", "t:p/i#g", "t:p/i#h", "t:p/i#[method]r.m", "g", "k", "t:p/i", "i#g", "t:p/i#[method]r", "all2"];
-    let all_items = ["if", "ef", "ii", "ei", "ek"];
+    let names = ["f", "t:p/i#g", "t:p/i#h", "t:p/i#[method]r.m", "g", "k", "[method]c.f", "c.f", "t:p/i", "i#g", "t:p/i#[method]r", "all2"];
+    let all_items = ["if", "ef", "ii", "ei", "ek", "ir"];
     for _ in 0..n {
         let nd = rng.below(6);
         let mut dirs = Vec::new();
